@@ -65,10 +65,10 @@ def _field(case):
 
 def gen_cases(rng, tier):
     cases = []
-    nrep = 25 if tier == "quick" else 150
+    nrep = 25 if tier == "quick" else 90
     for i in range(nrep):
         for npol in (1, 2):
-            n = rng.choice([32, 48, 64, 96, 128] if tier == "quick" else [32, 64, 100, 128, 192, 256])
+            n = rng.choice([32, 48, 64, 96, 128] if tier == "quick" else [32, 64, 100, 128, 160])
             sps, R = rng.choice([(16, 10e9), (8, 10e9), (16, 40e9)])
             L = rng.uniform(1, 100)
             gamma = rng.choice([0.0, rng.uniform(0.2, 5.0), rng.uniform(0.2, 5.0)])
@@ -78,8 +78,8 @@ def gen_cases(rng, tier):
             phi = 10 ** rng.uniform(np.log10(5e-4), -1)
             # keep the number of steps modest in the quick tier
             nl = gamma * P * L
-            if nl / phi > (300 if tier == "quick" else 3000):
-                phi = min(0.1, nl / (300 if tier == "quick" else 3000))
+            if nl / phi > (300 if tier == "quick" else 1200):
+                phi = min(0.1, nl / (300 if tier == "quick" else 1200))
             fs = sps * R
             b2 = rng.choice([0.0, rng.uniform(-25, 25), rng.uniform(-25, 25)])
             b3 = rng.choice([0.0, 0.0, rng.uniform(-0.2, 0.2)])
